@@ -72,7 +72,7 @@ def sensitivity():
         for r in sorted(per[pid], key=lambda r: r[1]):
             det = r[4] if len(r) > 4 else ''
             m = re.search(r'sig=(.*)$', det)
-            sig = (m.group(1) if m else det)[:110].replace('|', '\\|')
+            sig = (m.group(1) if m else det)[:(110 if r[2] == 'DETECTED' and 're-run' not in det else 400)].replace('|', '\\|')
             lines.append(f'| {r[0]} | `{r[1]}` | {r[2]} | {r[3]} | {("`" + sig + "`") if sig else ""} | {r[5] if len(r) > 5 else ""} |')
     return '\n'.join(lines)
 
